@@ -90,6 +90,36 @@ def single(spec, case, exe, work):
     return core.parse_trace(m).get('x', []), core.parse_trace(i).get('x', [])
 
 
+def vsign_variants(spec, cases):
+    """A visit function may answer any non-zero value, also a negative one.  For specs that set
+    `vsign_every = k`, every k-th case containing a foreach with a stop request is replayed with the header
+    `vsign -1`: the driver's visitor then answers -stop and the driver prints the traversal's result times -1,
+    so model and oracle (which see `stop`) are unchanged while `if (res > 0)`-style bugs show."""
+    k = getattr(spec, 'vsign_every', 0)
+    if not k or 'vsign' not in spec.header_words:
+        return []
+    out = []
+    n = 0
+    for c in cases:
+        if any(h.split()[0] == 'vsign' for h in c.header):
+            continue
+        hit = False
+        for o in c.ops:
+            w = o.split()
+            if w[0].startswith('foreach') and any(x.lstrip('-').isdigit() and int(x) > 0 for x in w[2:] if x.lstrip('-').isdigit()):
+                hit = True
+                break
+            if w[0].startswith('foreach') and len(w) >= 3 and w[-1].isdigit() and int(w[-1]) > 0:
+                hit = True
+                break
+        if not hit:
+            continue
+        n += 1
+        if n % k == 0:
+            out.append(Case(c.name + 'n', c.header + ['vsign -1'], c.ops, c.origin))
+    return out
+
+
 def check(spec, tier, seed, replay=None):
     return check_parts(spec.pid, [spec], tier, seed, replay, main=spec)
 
@@ -180,6 +210,7 @@ def check_parts(pid, parts, tier, seed, replay=None, main=None):
             clo, clo_stats = spec.closure(tier)
             cases += clo
             cases += spec.random_cases(tier, seed)
+            cases += vsign_variants(spec, cases)
         for i, c in enumerate(cases):
             c.name = '%s_%d' % (c.name, i)
         if clo_stats:
